@@ -366,6 +366,10 @@ func (m *parserModel) fromTyped(v ssa.Value) bool {
 
 // isKeyList: v is a slice accumulated from the keys of a range over field f (optionally sorted).
 func isKeyList(v ssa.Value, f *types.Var) bool {
+	if m, _, ok := keysCallOf(v); ok {
+		_, isF := loadOfField(m, f)
+		return isF
+	}
 	for _, leaf := range phiLeaves(v, map[ssa.Value]bool{}) {
 		c, ok := leaf.(*ssa.Call)
 		if !ok || calleeName(c) != "builtin:append" || len(c.Call.Args) != 2 {
@@ -758,6 +762,18 @@ func usedByRenderLoop(fn *ssa.Function, list ssa.Value) bool {
 		if c, ok := ref.(*ssa.Call); ok && calleeName(c) == "builtin:append" {
 			cands = append(cands, c)
 		}
+		// slices.Concat(required, normal): the list travels inside the variadic argument
+		if st, ok := ref.(*ssa.Store); ok && st.Val == list {
+			if a, ok := rootOfAddr(st.Addr).(*ssa.Alloc); ok {
+				if sl := sliceOfAlloc(a); sl != nil && sl.Referrers() != nil {
+					for _, r2 := range *sl.Referrers() {
+						if c, ok := r2.(*ssa.Call); ok && calleeBase(c) == "slices.Concat" {
+							cands = append(cands, c)
+						}
+					}
+				}
+			}
+		}
 	}
 	for _, h := range loopHeaders(fn) {
 		coll := rangeCollectionOfHeader(h)
@@ -969,6 +985,34 @@ func rC18Fields(w *World, r *Report) {
 			envNorm = true
 		}
 	}
+	// written with + or a Builder instead of Sprintf: the variable's name is read and used for something other than a test
+	for _, in := range reads["EnvVar"] {
+		fa := in.(*ssa.FieldAddr)
+		if fa.Referrers() == nil {
+			continue
+		}
+		for _, ref := range *fa.Referrers() {
+			ld, ok := ref.(*ssa.UnOp)
+			if !ok || ld.Op != token.MUL || ld.Referrers() == nil {
+				continue
+			}
+			for _, use := range *ld.Referrers() {
+				isTest := false
+				if bo, ok := use.(*ssa.BinOp); ok && (bo.Op == token.EQL || bo.Op == token.NEQ) {
+					isTest = true
+				}
+				if _, isDbg := use.(*ssa.DebugRef); isDbg || isTest {
+					continue
+				}
+				if isReqFact(use.Block(), true) {
+					envReq = true
+				}
+				if isReqFact(use.Block(), false) {
+					envNorm = true
+				}
+			}
+		}
+	}
 	// nothing else decides whether they are shown: the default is printed for every non-required option (an empty
 	// one included) and the variable for every bound option
 	extraCond := func(b *ssa.BasicBlock, allowEnvTest bool) string {
@@ -1133,6 +1177,12 @@ func rC17Sections(w *World, r *Report) {
 		return func(in ssa.Instruction) bool {
 			if rg, ok := in.(*ssa.Range); ok {
 				if b, ok := loadOfField(rg.X, f); ok && b == ssa.Value(m.cursorPhi) {
+					return true
+				}
+			}
+			// the keys collected through the iterator helpers: maps.Keys(cursor.f)
+			if c, ok := in.(*ssa.Call); ok && calleeBase(c) == "maps.Keys" {
+				if b, ok := loadOfField(c.Call.Args[0], f); ok && b == ssa.Value(m.cursorPhi) {
 					return true
 				}
 			}
